@@ -145,6 +145,20 @@ theorem nested_plain_enter_is_read_only (s : MSt) (hm : s.mode = false) (o : Op)
 example (d : Bytes) (o : Op) : (mstep (mrun (MSt.init d) [.enter, .allowWrite, .enter, .exit]) (.mutate o false)).2 = true :=
   (any_exit_ends_write_access d [.enter, .allowWrite, .enter] o false).1
 
+/-- the object `copy()` returns is not write-enabled, whatever the original was doing when the copy was
+    made (also in the middle of a write context): a mutation in a plain context of the copy, or outside
+    any context, raises and leaves the copy's bytes alone -/
+theorem copy_not_write_enabled (s : MSt) (o : Op) (i : Bool) :
+    (mstep (mrun (copyObj s) [.enter]) (.mutate o i)).2 = true ∧
+    (mstep (mrun (copyObj s) [.enter]) (.mutate o i)).1.disk = s.disk ∧
+    (mstep (copyObj s) (.mutate o i)).2 = true ∧ (mstep (copyObj s) (.mutate o i)).1.disk = s.disk := by
+  have h := mode_read_only_context s.disk o i
+  have h0 := mode_no_context s.disk o i
+  refine ⟨h.1, h.2, ?_, ?_⟩
+  · simp [copyObj, h0]
+  · show (mstep (MSt.init s.disk) (.mutate o i)).1.disk = s.disk
+    rw [h0]; rfl
+
 /-- no read operation ever changes the bytes, in any mode -/
 theorem readers_pure (s : MSt) (impl nobj : Bool) : (mstep s (.read impl nobj)).1.disk = s.disk := by
   simp only [mstep]; repeat' split
